@@ -11,6 +11,8 @@ TYPES = ['iph', 'ext4', 'ext6', 'icmp4', 'eth', 'sll', 'vlan', 'macsec', 'arp', 
 def tag_props(tag):
     if tag.startswith('read.success_despite_fault') or (tag.startswith('skip.') and tag.endswith('.read.success_despite_fault')):
         return ['C06', 'C16']     # a reader fault that does not surface
+    if tag.startswith('read.len_error_fields'):
+        return ['C06', 'C07']     # the reader's length error does not describe the fault the slice decoder (and the bytes) show
     if tag.startswith('skip.'):
         return ['C06']            # slice and reader versions of the skip helpers disagree with the format / with each other
     if tag.startswith('read.'):
